@@ -6,6 +6,7 @@ Property theorems only.  `validate` models `macaroon.Validate`/`CaveatSet.Valida
 their tie to /repo is the `clear` correspondence family.
 -/
 import Macaroon.Lemmas.Clearing
+import Macaroon.Lemmas.Monotone
 
 namespace Macaroon.Props.C03
 open Macaroon Macaroon.Lemmas
@@ -72,6 +73,80 @@ theorem unevaluable_denies (c : Cav B) (a : Access)
   · cases c <;> simp_all [Cav.isBind, prohibits]
   · cases c <;> simp_all [Cav.isAttestation, prohibits]
   · simp [prohibits]
+
+/-! ### … at any nesting depth -/
+
+mutual
+/-- the caveat is, or holds inside conditionals at any depth, a caveat that cannot be evaluated:
+third-party, binding, or of an unknown type -/
+def holdsUnevaluable : Cav B → Bool
+  | .tp .. => true
+  | .bind .. => true
+  | .unregistered .. => true
+  | .ifPresent _ ifs _ => holdsUnevaluableL ifs
+  | _ => false
+def holdsUnevaluableL : CavList B → Bool
+  | .nil => false
+  | .cons c cs => holdsUnevaluable c || holdsUnevaluableL cs
+end
+
+mutual
+/-- a caveat that is or holds an unevaluable caveat denies every request, and never with "resource
+unspecified" — so an enclosing conditional cannot skip it -/
+theorem holdsUnevaluable_denies : (c : Cav B) → holdsUnevaluable c = true → ∀ a : Access,
+    prohibits c a ≠ [] ∧ (prohibits c a).is .resUnspecified = false
+  | .tp .., _, a => by simp [prohibits, Errs.is, Err.is]
+  | .bind .., _, a => by simp [prohibits, Errs.is, Err.is]
+  | .unregistered .., _, a => by simp [prohibits, Errs.is, Err.is]
+  | .ifPresent n ifs els, h, a => by
+    simp only [holdsUnevaluable] at h
+    obtain ⟨x, hx, hd⟩ := holdsUnevaluableL_denies ifs h a
+    refine ⟨?_, ifPresent_never_unspecified n ifs els a⟩
+    rw [prohibits_ifPresent]
+    cases a.action with
+    | none => simp
+    | some act =>
+      cases n with
+      | true => simp
+      | false =>
+        have hxa : x ∈ applicable ifs.toList a := by
+          simp only [applicable, List.mem_filter, Bool.not_eq_eq_eq_not, Bool.not_true]
+          exact ⟨hx, hd.2⟩
+        have hne : (applicable ifs.toList a).isEmpty = false := by
+          cases h' : applicable ifs.toList a with
+          | nil => rw [h'] at hxa; cases hxa
+          | cons _ _ => rfl
+        simp only [Bool.false_eq_true, ↓reduceIte, hne, Bool.false_and]
+        intro h0
+        exact hd.1 (List.flatMap_eq_nil_iff.mp h0 x hxa)
+  | .organization .., h, _ | .volumes .., h, _ | .apps .., h, _ | .validityWindow .., h, _
+  | .featureSet .., h, _ | .mutations .., h, _ | .machines .., h, _ | .confineUser .., h, _
+  | .confineOrganization .., h, _ | .isUser .., h, _ | .machineFeatureSet .., h, _
+  | .fromMachine .., h, _ | .clusters .., h, _ | .confineGoogleHD .., h, _ | .confineGitHubOrg .., h, _
+  | .maxValidity .., h, _ | .isMember, h, _ | .flyioUserID .., h, _ | .gitHubUserID .., h, _
+  | .googleUserID .., h, _ | .action .., h, _ | .commands .., h, _ | .appFeatureSet .., h, _
+  | .storageObjects .., h, _ | .allowedRoles .., h, _ | .flySrc .., h, _ => by
+    simp [holdsUnevaluable] at h
+theorem holdsUnevaluableL_denies : (l : CavList B) → holdsUnevaluableL l = true → ∀ a : Access,
+    ∃ x ∈ l.toList, prohibits x a ≠ [] ∧ (prohibits x a).is .resUnspecified = false
+  | .nil, h, _ => by simp [holdsUnevaluableL] at h
+  | .cons c cs, h, a => by
+    simp only [holdsUnevaluableL, Bool.or_eq_true] at h
+    rcases h with h | h
+    · exact ⟨c, by simp [CavList.toList], holdsUnevaluable_denies c h a⟩
+    · obtain ⟨x, hx, hd⟩ := holdsUnevaluableL_denies cs h a
+      exact ⟨x, by simp [CavList.toList, hx], hd⟩
+end
+
+/-- `nested_unevaluable_denies`: a caveat set one of whose members is, or holds at ANY depth of
+conditionals, a third-party caveat, a binding caveat or a caveat of an unknown type authorises no
+non-empty group of requests: a conditional never swallows what cannot be evaluated -/
+theorem nested_unevaluable_denies (cs : List (Cav B)) (c : Cav B) (hc : c ∈ cs) (hu : holdsUnevaluable c = true)
+    (rs : List Access) (hne : rs ≠ []) : validate cs rs ≠ [] := by
+  obtain ⟨r, hr⟩ := List.exists_mem_of_ne_nil rs hne
+  have hna : c.isAttestation = false := by
+    cases c <;> first | rfl | (simp [holdsUnevaluable] at hu)
+  exact single_prohibition_denies cs rs c r hc hr hna (holdsUnevaluable_denies c hu r).1
 
 /-- What a caveat kind needs from the request: the optional interface must be implemented
 (together with `GetAction` where the Go interface embeds `resset.Access`) and the value it
@@ -223,6 +298,23 @@ theorem missing_information_denies (c : Cav B) (a : Access) (h : provides c a = 
 example : provides (.organization 1 31 : Cav Bytes) (Access.bare 0 0) = false := by decide
 example : prohibits (.organization 1 31 : Cav Bytes) (Access.bare 0 0) = [.invalidAccess] := by decide
 
+/-- non-vacuity: an unknown-type caveat two conditionals deep -/
+def deepUnknown : Cav Bytes :=
+  .ifPresent false (.cons (.ifPresent false (.cons (.unregistered 99 [0xc0]) .nil) 31) .nil) 31
+def readReq : Access := { Access.bare 0 0 with action := some 1 }
+def writeReq : Access := { Access.bare 0 0 with action := some 2 }
+def badReq : Access := { Access.bare 0 0 with wf := [.other] }
+example : holdsUnevaluable deepUnknown = true := by decide
+example := nested_unevaluable_denies [(.isUser 1 : Cav Bytes), deepUnknown] deepUnknown (by simp) (by decide)
+  [readReq] (by simp)
+example : validate [deepUnknown] [readReq] = [.badCaveat] := by decide
+example := unevaluable_denies (.tp [1] [2] [3] : Cav Bytes) (Access.bare 0 0) (Or.inl rfl)
+example := single_prohibition_denies [(.action 1 : Cav Bytes)] [readReq, writeReq] (.action 1) writeReq
+  (by simp) (by simp) rfl (by decide)
+example := single_malformed_request_denies ([] : List (Cav Bytes)) [readReq, badReq] badReq (by simp) (by decide)
+example := (validate_perm [(.action 1 : Cav Bytes), .isUser 1] [.isUser 1, .action 1] [readReq] [readReq]
+  (List.Perm.swap _ _ _) (List.Perm.refl _)).mp (by decide)
+
 end Macaroon.Props.C03
 
 #print axioms Macaroon.Props.C03.validate_iff
@@ -231,3 +323,6 @@ end Macaroon.Props.C03
 #print axioms Macaroon.Props.C03.validate_perm
 #print axioms Macaroon.Props.C03.unevaluable_denies
 #print axioms Macaroon.Props.C03.missing_information_denies
+#print axioms Macaroon.Props.C03.holdsUnevaluable_denies
+#print axioms Macaroon.Props.C03.holdsUnevaluableL_denies
+#print axioms Macaroon.Props.C03.nested_unevaluable_denies
